@@ -289,6 +289,8 @@ def analyse_config_class(repo: Repo, c: Cls) -> ConfigClass:
                 cc.lang_override = True
             if isinstance(n, ast.Subscript) and isinstance(n.slice, ast.Name) and n.slice.id == "language":
                 cc.lang_override = True
+            if isinstance(n, ast.Call) and call_name(n) == "get" and n.args and isinstance(n.args[0], ast.Name) and n.args[0].id == "language":
+                cc.lang_override = True
     # key -> field through the cls(...) keyword call in from_dict
     for n in ast.walk(fd.node):
         if isinstance(n, ast.Call) and isinstance(n.func, ast.Name) and n.func.id in ("cls", c.name):
